@@ -15,6 +15,7 @@ oracle        : (model-independent) numpy/scipy/Fraction implementation of the *
 """
 from fractions import Fraction as F
 
+import math
 import numpy as np
 
 import common
@@ -437,6 +438,17 @@ def oracle_identities(chk, case, B, tag, rIdx, cIdx, f0, f):
             chk.fail('C10:zero-lines', 'step(f with some z-lines zero) + step(the rest) != step(f)', dict(tag, kept_lines=[int(i) for i in np.nonzero(keep)[0]]),
                      actual=float(np.abs((p1 + p2) - f).max()))
             ok = False
+    # memory layouts the caller may use: a strided window of a larger array (a plane of a 4-D array in another order), Fortran order
+    big = np.full((nq, 2 * nz), 9.75)
+    fv = big[:, ::2]
+    fv[:] = f0
+    fa.step(fv, cIdx, rIdx)
+    ff = np.asfortranarray(f0.copy())
+    fa.step(ff, cIdx, rIdx)
+    if not np.array_equal(fv, f) or not (big[:, 1::2] == 9.75).all() or not np.array_equal(ff, f):
+        chk.fail('C10:memory-layout', 'step on a non-contiguous (strided / Fortran-ordered) array does not give what it gives on a C-contiguous copy',
+                 tag, actual=[float(np.abs(fv - f).max()), float(np.abs(ff - f).max())])
+        ok = False
     # commutation with cyclic shifts in z
     m = int(rng.randint(1, nz))
     fr_ = np.roll(f0, m, axis=1).copy()
@@ -461,6 +473,46 @@ def oracle_identities(chk, case, B, tag, rIdx, cIdx, f0, f):
 FACTOR = 64.0
 
 
+def nominal_cases(chk):
+    """oracle only: a displacement that is NOMINALLY a whole number n of cells (v*b_z*dt = n*dz with iota = 0) on a z grid whose step is
+    not exactly representable (0.1, 0.3, 1/3, 2*pi/nz ...).  In floating point the quotient zDist/dz may round to the integer n while
+    zDist is not an exact multiple of dz: whatever the stencil chosen, the foot is within rounding of node n and the result must be
+    the circular shift by n cells up to rounding."""
+    from pygyro.model.layout import Layout
+    from pygyro.advection.advection import FluxSurfaceAdvection
+    from pygyro.initialisation.constants import Constants
+    rng = chk.rng
+    for it in range(chk.n(60, 400)):
+        nz = rng.randint(7, 12)
+        deg, uniform = rng.choice([(3, True), (3, False), (5, False), (2, False)])
+        nq = rng.randint(deg + 2, 9)
+        dz = rng.choice([0.1, 0.3, 0.7, 1.0 / 3.0, 2 * math.pi / nz, 1506.7590666130668 / nz, rng.uniform(0.05, 3.0)])
+        dt = rng.choice([1.0, 1.0, 0.5, 2.0, 0.1])
+        ns = sorted(set(rng.randint(-2 * nz, 2 * nz) for _ in range(4)))
+        v = sorted(set(-(n * dz) / dt for n in ns))
+        case = dict(fam='nominal', sub=rng.randrange(1 << 30), nz=nz, nq=nq, deg=deg, uniform=uniform, dz=dz, z0=rng.choice([0.0, 0.0, -1.25, dz]),
+                    dt=dt, v=v, r=[0.5, 1.0, 2.25], iota=0.0, R0=None, nprocs=[1], rank=[0], nL=6)
+        with Guard(chk, 'C10:raises', 'constructing FluxSurfaceAdvection or calling step', case):
+            B = build(case)
+            fa = B['fa']
+            f0 = B['rng'].uniform(-1, 1, size=(nq, nz))
+            for cIdx, vv in enumerate(B['v']):
+                dz_c, _, zDist, _, _ = code_inputs(case, B, 0, cIdx)
+                n = int(round(zDist / dz_c))
+                if abs(zDist / dz_c - n) > 1e-9:
+                    continue
+                f = f0.copy()
+                fa.step(f, cIdx, 0)
+                ref = np.roll(f0, -n, axis=1)
+                err = float(np.abs(f - ref).max())
+                if not err <= 1e-9 * (1 + abs(n)):
+                    chk.fail('C10:nominal-shift', 'a displacement of (nominally) %d whole cells without twist is not the circular shift by %d cells '
+                             '(max difference %.3e; float quotient zDist/dz = %r)' % (n, n, err, zDist / dz_c), dict(case, cIdx=cIdx, cells=n),
+                             expected='np.roll(f, %d, axis=1)' % (-n), actual=err)
+                chk.case(('nominal', nz, deg, uniform, repr(dz), n), nontrivial=n != 0)
+        chk.count('nominal whole-cell displacements on non-representable steps')
+
+
 def run(chk):
     common.use_repo()
     chk.rule = ('one evaluation = one FluxSurfaceAdvection object + one step(f, cIdx, rIdx) on random data compared entry-wise with the '
@@ -482,6 +534,7 @@ def run(chk):
             chk.count('near-node cases')
     finally:
         drv.close()
+    nominal_cases(chk)
     chk.notes['max |code - model| / (eps * scale)'] = round(stats['worst'], 3)
     chk.notes['tolerance_factor'] = FACTOR
     chk.notes['interpolation contract: max |S_row(theta_q) - f[q,row]| / (eps * max|coef|)'] = round(stats['interp'], 3)
